@@ -13,12 +13,14 @@
 
    Second pass (model/HugrHist.v, spec/HugrHistS.v, proofs/HugrHistP.v): the guard is an invariant of mutation
    histories.  A history is Hugr(root_op) followed by any list of add_node / add_const / add_link /
-   add_order_link / delete_link / delete_node calls (the statement-by-statement store model of C04,
-   model/Graph.v: node table with holes, free stack, BiMap of sub-ports) and metadata assignments;
+   add_order_link / delete_link / delete_node / insert_hugr calls (the statement-by-statement store model of
+   C04, model/Graph.v: node table with holes, free stack, BiMap of sub-ports) and metadata assignments;
    `view` is what the public queries show of a store state (harness/hobs.py dump).  Premises are on the
    individual calls, each evaluated in the state the call is made in:
      hist_ok        every call is inside the store's guard (live node arguments, link offsets >= -1,
-                    delete_node of a childless non-root node) and no freed index is pending at any add_node
+                    delete_node of a childless non-root node, insert_hugr under a live parent of a HUGR that
+                    was itself built inside the guard without index reuse) and no freed index is pending at
+                    any add_node / insert_hugr
      hist_on_ports  every add_link / add_order_link names ports the operations have (C03's premise) *)
 From Coq Require Import List Bool Arith ZArith Permutation.
 Import ListNotations.
@@ -137,17 +139,18 @@ Example C02_example :
                length (s_nodes s) = 3 /\ h_links h' = [((1, APort 0), (2, APort 0)); ((1, AOrder), (2, AOrder))].
 Proof. split; [exact Witness.good_guard|exact roundtrip_example]. Qed.
 
-(* non-vacuity of the history theorems: a deletion in the middle (of a node with a link from a multi-linked
-   port), then an order link, a metadata assignment, a link added and deleted again *)
+(* non-vacuity of the history theorems: an insert_hugr, a deletion in the middle (of a node with a link from a
+   multi-linked port), then an order link, a metadata assignment, a link added and deleted again *)
 Example C02_history_example :
   hist_ok (init 0 0) HistWitness.cs = true /\
   hist_on_ports Witness.vports Witness.sports Witness.has_order (init 0 0) HistWitness.cs = true /\
   no_add_after_delete HistWitness.cs = true /\
   map (option_map (fun n => (n_parent n, n_children n, n_md n))) (h_nodes HistWitness.final) =
-    [Some (None, [1; 3], 0); Some (Some 0, [], 0); None; Some (Some 0, [], 7)] /\
-  h_links HistWitness.final = [((1, APort 0), (3, APort 0)); ((1, AOrder), (3, AOrder))] /\
+    [Some (None, [1; 3], 0); Some (Some 0, [4], 0); None; Some (Some 0, [], 7);
+     Some (Some 1, [5], 0); Some (Some 4, [6], 0); Some (Some 5, [], 2)] /\
+  h_links HistWitness.final = [((5, APort 0), (6, APort 0)); ((1, APort 0), (3, APort 0)); ((1, AOrder), (3, AOrder))] /\
   exists s h', Witness.to_s HistWitness.final = Some s /\ Witness.from_s s = Some h' /\ Witness.to_s h' = Some s /\
-               length (s_nodes s) = 3.
+               length (s_nodes s) = 6.
 Proof. exact history_example. Qed.
 
 Print Assumptions C02_roundtrip_fixpoint.
